@@ -130,3 +130,12 @@ Proof. exact open_any_accepted_has_signatures. Qed.
 Theorem C13_byte_level_any_open_only_looks : forall t st0 o st1,
   open_existing t st0 = Ok (o, st1) -> ro_step st0 st1 /\ st_images st1 = st_images st0.
 Proof. exact Io_open_readonly_any. Qed.
+
+(** IN A DIRECTORY OF SEVERAL MAPS (Io_world.v): a session that asks for an existing map under another key type (other than the
+    pair of the known finding) ends with the signature panic before any call is run and returns no new directory - every file
+    of the directory stays as it is. *)
+From Aby Require Import Io_world.
+Theorem C13_byte_level_wrong_type_session_refused : forall d g name s t n bk bv bh ops,
+  DRep d g -> g !! name = Some s -> fits64 s -> t <> kt s -> ~ Known13 t (kt s) ->
+  session d name t n bk bv bh ops = Panic BadSig.
+Proof. exact session_wrong_type_refused. Qed.
